@@ -163,7 +163,7 @@ func genC01(t *rapid.T) c01Case {
 		Variant: rapid.IntRange(0, 11).Draw(t, "variant"),
 		Route:   rapid.SampledFrom([]int{0, 0, 1, 1, 2, 3, 4, 5}).Draw(t, "route"),
 		Mask:    rapid.Uint64().Draw(t, "mask"),
-		Order:   rapid.IntRange(0, 5).Draw(t, "order"),
+		Order:   rapid.IntRange(0, 11).Draw(t, "order"),
 	}
 	c.Tree = genTree(t, treeOpts{Bulk: true}, newNamer(true, false))
 	if rapid.IntRange(0, 30).Draw(t, "emptyText") == 30 {
